@@ -361,7 +361,7 @@ func (s *Sim) checkMigrationReconcile(v *recView) {
 	if !ok {
 		return
 	}
-	if t, ok := RevTemplate(pre); !ok || t != m.tmpl {
+	if t, ok := RevTemplate(pre); !ok || !sameTemplate(t, m.tmpl) {
 		return // another object took the name
 	}
 	if ref := controllerOf(pre); ref != nil && ref.UID != v.set.UID {
